@@ -274,7 +274,19 @@ func (e *Env) evalSelector(x *ast.SelectorExpr) Val {
 	if base.T == nil {
 		panic(bindErr("selector on untyped spec value"))
 	}
-	obj, index, _ := types.LookupFieldOrMethod(base.T, true, e.pkgOrNil(), x.Sel.Name)
+	// specs may mention unexported fields of types of other packages: look the field up from
+	// the package that declares the type
+	lookupPkg := e.pkgOrNil()
+	{
+		bt := base.T
+		if p, ok := bt.Underlying().(*types.Pointer); ok {
+			bt = p.Elem()
+		}
+		if n, ok := bt.(*types.Named); ok && n.Obj().Pkg() != nil {
+			lookupPkg = n.Obj().Pkg()
+		}
+	}
+	obj, index, _ := types.LookupFieldOrMethod(base.T, true, lookupPkg, x.Sel.Name)
 	if fv, ok := obj.(*types.Var); ok && fv.IsField() {
 		return v.walkFields(e, base, index, x.Pos())
 	}
@@ -668,7 +680,8 @@ func (v *V) mapComps(mt *types.Map) (dom, val, domSort, valSort string) {
 func (v *V) mapRead(e *Env, m Val, k Val) (Val, string) {
 	mt := m.T.Underlying().(*types.Map)
 	dc, vc, ds, vs := v.mapComps(mt)
-	present := fmt.Sprintf("(select (select %s %s) %s)", e.st.heapGet(v.d, dc, ds), m.S, k.S)
+	// a nil map has no keys
+	present := and(not(eq(m.S, "0")), fmt.Sprintf("(select (select %s %s) %s)", e.st.heapGet(v.d, dc, ds), m.S, k.S))
 	raw := fmt.Sprintf("(select (select %s %s) %s)", e.st.heapGet(v.d, vc, vs), m.S, k.S)
 	val := Val{T: mt.Elem(), S: ite(present, raw, e.zero(mt.Elem()).S)}
 	if e.inQuant == 0 {
@@ -687,6 +700,9 @@ func (v *V) mapWrite(e *Env, m Val, k Val, nv Val, pos token.Pos) {
 	dom := e.st.heapGet(v.d, dc, ds)
 	vals := e.st.heapGet(v.d, vc, vs)
 	present := fmt.Sprintf("(select (select %s %s) %s)", dom, m.S, k.S)
+	if rm, ok := e.st.ghost["$rangedmap"]; ok && !e.spec {
+		v.oblige(e, "maprange", or(not(eq(m.S, rm.S)), present), pos, "insertion into the map being ranged over (iteration model assumes a fixed key set)")
+	}
 	ml := e.st.heapGet(v.d, "ML", "(Array Int Int)")
 	e.st.heapSet(v.d, "ML", "(Array Int Int)", fmt.Sprintf("(store %s %s (ite %s (select %s %s) (+ (select %s %s) 1)))", ml, m.S, present, ml, m.S, ml, m.S))
 	e.st.heapSet(v.d, dc, ds, fmt.Sprintf("(store %s %s (store (select %s %s) %s true))", dom, m.S, dom, m.S, k.S))
@@ -698,6 +714,9 @@ func (v *V) mapDelete(e *Env, m Val, k Val) {
 	dc, _, ds, _ := v.mapComps(mt)
 	dom := e.st.heapGet(v.d, dc, ds)
 	present := fmt.Sprintf("(select (select %s %s) %s)", dom, m.S, k.S)
+	if rm, ok := e.st.ghost["$rangedmap"]; ok && !e.spec {
+		v.oblige(e, "maprange", not(eq(m.S, rm.S)), token.NoPos, "deletion from the map being ranged over (iteration model assumes a fixed key set)")
+	}
 	ml := e.st.heapGet(v.d, "ML", "(Array Int Int)")
 	e.st.heapSet(v.d, "ML", "(Array Int Int)", fmt.Sprintf("(store %s %s (ite %s (- (select %s %s) 1) (select %s %s)))", ml, m.S, present, ml, m.S, ml, m.S))
 	e.st.heapSet(v.d, dc, ds, fmt.Sprintf("(store %s %s (store (select %s %s) %s false))", dom, m.S, dom, m.S, k.S))
@@ -800,12 +819,22 @@ func (v *V) bytesToStr(e *Env, b Val, t types.Type) Val {
 	if v.d.mode != ModeInt {
 		panic(unsupported("[]byte to string in bv mode"))
 	}
+	// string(b) is a function of the bytes: two conversions of the same bytes are the same string
+	// (uninterpreted function of the backing array, offset and length)
 	v.d.declareFun("str_at", []string{"Str", "Int"}, "Int")
-	s := v.d.fresh("str", "Str")
-	_, _, ln, _ := v.sliceParts(b.S)
-	e.st.define(eq(fmt.Sprintf("(str_len %s)", s), ln))
-	v.d.usesQuant = true
-	e.st.define(fmt.Sprintf("(forall ((qi Int)) (! (=> (and (<= 0 qi) (< qi %s)) (= (str_at %s qi) %s)) :pattern ((str_at %s qi))))", ln, s, v.sliceElem(e, b, "qi").S, s))
+	v.d.declareFun("str_from", []string{"(Array Int Int)", "Int", "Int"}, "Str")
+	base, off, ln, _ := v.sliceParts(b.S)
+	comp, sort := v.memComp(tByte)
+	arr := e.st.heapRead(v.d, comp, sort, base)
+	s := fmt.Sprintf("(str_from %s %s %s)", arr, off, ln)
+	if e.inQuant == 0 {
+		named := v.d.fresh("str", "Str")
+		e.st.define(eq(named, s))
+		e.st.define(eq(fmt.Sprintf("(str_len %s)", named), ln))
+		v.d.usesQuant = true
+		e.st.define(fmt.Sprintf("(forall ((qi Int)) (! (=> (and (<= 0 qi) (< qi %s)) (= (str_at %s qi) %s)) :pattern ((str_at %s qi))))", ln, named, v.sliceElem(e, b, "qi").S, named))
+		return Val{T: t, S: named}
+	}
 	return Val{T: t, S: s}
 }
 
